@@ -240,6 +240,30 @@ def build_stages(ctx):
                             cfg.detector.radio.nantennas, cfg.detector.radio.gain)
         return (np.asarray(ef), np.asarray(snr))
     stages.append(Stage("EASRadio.__call__", r_make, r_call, max_n=80))
+    # a detector a few kilometres up (mountain / low balloon): decays exactly abeam of the detector (lenDec = pathLen cos(theta)) and
+    # beyond closest approach fall inside the radio window
+    cfg4 = nss.NssConfig()
+    cfg4.detector.initial_position.altitude = 4.0
+    radio4 = EASRadio(cfg4)
+
+    def r_make4(n):
+        d = r_make(n)
+        d["L"] = rng.uniform(20.0, 200.0, n)
+        d["theta"] = rng.uniform(0.0, 0.3, n)
+        d["len"] = rng.uniform(1.0, 60.0, n)
+        k3 = max(1, n // 3)
+        d["len"][:k3] = d["L"][:k3] * np.cos(d["theta"][:k3])            # exactly abeam
+        d["len"][k3:2 * k3] = d["L"][k3:2 * k3] * np.cos(d["theta"][k3:2 * k3]) * rng.uniform(1.01, 1.5, len(d["len"][k3:2 * k3]))   # beyond
+        d["alt"] = rng.uniform(0.1, 9.5, n)
+        return d
+
+    def r_call4(inp):
+        m = ~((inp["alt"] < 0) | (inp["alt"] > 10))
+        with FakeUniform() as fu:
+            fu.queue += [inp["u1"][m], inp["u2"][m]]     # below 90 km there is no ionosphere draw: geomagnetic angle, Askaryan phase
+            ef = radio4(inp["beta"], inp["alt"], inp["len"], inp["theta"], inp["L"], inp["E"])
+        return (np.asarray(ef),)
+    stages.append(Stage("EASRadio.__call__[4 km detector, abeam decays]", r_make4, r_call4, max_n=60))
     return stages, tau
 
 
